@@ -6,7 +6,7 @@
    assignment, wildcard with relation, headers, container types — are syntax errors of the parser model
    and are exercised by the injection catalogue of the check.) *)
 From Verif Require Import Base.Str Base.Outcome Model.Ast Model.Token Model.Parser Model.Listener
-  Spec.Sem Proofs.ListenerSem Proofs.ListenerFile.
+  Spec.Sem Proofs.ListenerSem Proofs.ListenerFile Proofs.ParserShape Model.Transform.
 
 (* 1. a relation name that is repeated inside one type (anywhere in the list) raises an error *)
 Theorem C09_duplicate_relation : forall modular ext module_ tyname rs,
@@ -41,6 +41,28 @@ Proof.
   destruct (walk_is_sem f Hwf (walk_accepts_only_distinct f s Hwf Hn Hw He)) as [s' [Hw' [_ Hm]]].
   rewrite Hw in Hw'. inversion Hw'; subst. exact Hm.
 Qed.
+
+(* 4'. the same from the token stream: if parser and listener accept, the model is the denotation of the
+       parsed tree and nothing in the tree is declared twice *)
+Theorem C09_accepted_stream : forall ts m exts modular,
+  parse_walk ts = DOk m exts modular ->
+  exists f, parse ts = Some f /\ wf_file f /\
+            (Forall (fun t => tname t <> []) (f_types f) -> distinct_decls f /\ m = sem_file f).
+Proof.
+  intros ts m exts modular H. unfold parse_walk in H.
+  destruct (parse ts) as [f|] eqn:Ep; [|discriminate].
+  exists f. split; [reflexivity|]. pose proof (parse_wf ts f Ep) as Hwf. split; [exact Hwf|].
+  intros Hn. destruct (walk f) as [s| |] eqn:Ew; try discriminate.
+  destruct (ls_errs s) eqn:Ee; [|discriminate]. inversion H; subst.
+  split; [eapply walk_accepts_only_distinct; eauto|].
+  eapply C09_accepted_model_is_the_document; eauto.
+Qed.
+
+(* the shape of every accepted relation definition: one operator kind per parenthesis level, exactly one
+   operand after `but not`, a direct assignment only as the leading operand *)
+Theorem C09_shape : forall ts f, parse ts = Some f ->
+  Forall (fun t => Forall (fun r => wf_rdef (rl_def r) = true) (ty_rels t)) (f_types f).
+Proof. exact parse_wf. Qed.
 
 (* 5. two operands with no operator between them never denote a rewrite *)
 Theorem C09_no_operator_no_rewrite : forall a b r, parse_expression (a :: b :: r) ONone = None.
